@@ -16,6 +16,11 @@ Inductive pres := PPanic | PErr | POk (h r t d : bytes).
 (* the four predicates applied to four strings (host, repository, tag, digest) *)
 Record preds := mkp { p_host : ob; p_repo : ob; p_tag : ob; p_digest : ob }.
 
+(* where in a URL a string is placed: /v2/<PRepo>/..., .../manifests/<ref> received as a tag
+   (PTagRef) or as a digest (PDigestRef), .../blobs/<PDigest> (also referrers/, ?mount=),
+   ?from=<PFrom> of a mount *)
+Inductive rpos := PRepo | PTagRef | PDigest | PFrom | PDigestRef.
+
 (* the decoded form of a case (the case files carry [case] below, a compressed form) *)
 Inductive dcase :=
   (* a string handed to the parser and to every predicate *)
@@ -31,7 +36,12 @@ Inductive dcase :=
   | CP (h r t d : bytes)
        (pv : preds)              (* IsValidHost h, IsValidRepository r, IsValidTag t, IsValidDigest d *)
        (str : option bytes)      (* Reference{h,r,t,d}.String(), None when it panicked *)
-       (rel abs : pres).         (* ParseRelative / Parse of that string *)
+       (rel abs : pres)          (* ParseRelative / Parse of that string *)
+  (* a string placed at a routing position of a URL handled by ociserver over a recording
+     backend: did the backend receive exactly this string in that position *)
+  | CR (pos : rpos) (w : bytes)
+       (pv : preds)              (* ociref.IsValidRepository / IsValidTag / IsValidDigest on w (p_host unused: OF) *)
+       (acc : ob).               (* OT reached the backend as w, OF did not, OP the handler panicked *)
 
 (* ---------- the model's prediction of every observable ---------- *)
 
@@ -74,6 +84,14 @@ Definition predict (c : dcase) : dcase :=
   | CP h r t d _ _ _ _ =>
       let str := to_string (mkref h r t d) in
       CP h r t d (preds_of h r t d) (Some str) (pres_of (parse_relative L str)) (pres_of (parse L str))
+  | CR pos w _ _ =>
+      CR pos w (mkp OF (ob_of (is_valid_repository w)) (ob_of (is_valid_tag w)) (ob_of (is_valid_digest L w)))
+         (match pos with
+          | PRepo | PFrom => ob_of (router_valid_repo w)
+          | PDigest => ob_of (router_valid_digest L w)
+          | PTagRef => match router_manifest_ref L w with Ok RTag => OT | Ok _ => OF | _ => OP end
+          | PDigestRef => match router_manifest_ref L w with Ok RDigest => OT | Ok _ => OF | _ => OP end
+          end)
   end.
 
 (* ---------- equality of observations ---------- *)
@@ -90,6 +108,12 @@ Definition preds_eqb (a b : preds) : bool :=
   ob_eqb (p_host a) (p_host b) && ob_eqb (p_repo a) (p_repo b) &&
   ob_eqb (p_tag a) (p_tag b) && ob_eqb (p_digest a) (p_digest b).
 
+Definition rpos_eqb (a b : rpos) : bool :=
+  match a, b with
+  | PRepo, PRepo | PTagRef, PTagRef | PDigest, PDigest | PFrom, PFrom | PDigestRef, PDigestRef => true
+  | _, _ => false
+  end.
+
 Definition case_eqb (a b : dcase) : bool :=
   match a, b with
   | CS w rel abs str pv sv wv dg, CS w' rel' abs' str' pv' sv' wv' dg' =>
@@ -98,10 +122,15 @@ Definition case_eqb (a b : dcase) : bool :=
   | CP h r t d pv str rel abs, CP h' r' t' d' pv' str' rel' abs' =>
       beqb h h' && beqb r r' && beqb t t' && beqb d d' && preds_eqb pv pv' &&
       option_eqb beqb str str' && pres_eqb rel rel' && pres_eqb abs abs'
+  | CR pos w pv acc, CR pos' w' pv' acc' =>
+      rpos_eqb pos pos' && beqb w w' && preds_eqb pv pv' && ob_eqb acc acc'
   | _, _ => false
   end.
 
 Lemma ob_eqb_eq a b : ob_eqb a b = true -> a = b.
+Proof. destruct a, b; cbn; congruence. Qed.
+
+Lemma rpos_eqb_eq a b : rpos_eqb a b = true -> a = b.
 Proof. destruct a, b; cbn; congruence. Qed.
 
 Lemma pres_eqb_eq a b : pres_eqb a b = true -> a = b.
@@ -133,6 +162,8 @@ Ltac to_eqs :=
   repeat match goal with
   | H : beqb _ _ = true |- _ => apply beqb_true in H
   | H : pres_eqb _ _ = true |- _ => apply pres_eqb_eq in H
+  | H : rpos_eqb _ _ = true |- _ => apply rpos_eqb_eq in H
+  | H : ob_eqb _ _ = true |- _ => apply ob_eqb_eq in H
   | H : preds_eqb _ _ = true |- _ => apply preds_eqb_eq in H
   | H : option_eqb beqb _ _ = true |- _ => apply (option_eqb_eq beqb beqb_true) in H
   | H : option_eqb preds_eqb _ _ = true |- _ => apply (option_eqb_eq preds_eqb preds_eqb_eq) in H
@@ -163,6 +194,18 @@ Definition abs_of_rel (rel : pres) : pres :=
   | p => p
   end.
 
+(* the OCI distribution specification's tag grammar [a-zA-Z0-9_][a-zA-Z0-9._-]{0,127}, written
+   here byte by byte (bytes as numbers) without reference to the model *)
+Definition spec_alnum_us (c : N) : bool :=
+  ((48 <=? c) && (c <=? 57)) || ((65 <=? c) && (c <=? 90)) || ((97 <=? c) && (c <=? 122)) || (c =? 95).
+Definition spec_tag (w : bytes) : bool :=
+  match w with
+  | [] => false
+  | c :: rest =>
+      spec_alnum_us c && forallb (fun x => spec_alnum_us x || (x =? 46) || (x =? 45)) rest &&
+      (Nat.leb (length w) 128)
+  end.
+
 Definition d_obs_ok (c : dcase) : bool :=
   match c with
   | CS w rel abs str pv sv wv dg =>
@@ -186,7 +229,9 @@ Definition d_obs_ok (c : dcase) : bool :=
       (* the exported wrappers (which the router's predicates are) agree with ociref's *)
       ob_eqb (p_repo wv) (p_repo sv) && ob_eqb (p_tag wv) (p_tag sv) && ob_eqb (p_digest wv) (p_digest sv) &&
       (* IsValidDigest is "Validate returns nil" *)
-      Bool.eqb (is_t (p_digest sv)) (match dg with Some 0 => true | _ => false end)
+      Bool.eqb (is_t (p_digest sv)) (match dg with Some 0 => true | _ => false end) &&
+      (* IsValidTag decides the specification's tag grammar *)
+      Bool.eqb (is_t (p_tag sv)) (spec_tag w)
   | CP h r t d pv str rel abs =>
       no_panic_preds pv && no_panic_pres rel && no_panic_pres abs &&
       match str with Some _ => true | None => false end &&
@@ -195,6 +240,17 @@ Definition d_obs_ok (c : dcase) : bool :=
           (negb (nonempty t) || is_t (p_tag pv)) && (negb (nonempty d) || is_t (p_digest pv))
        then pres_eqb rel (POk h r t d) && pres_eqb abs (POk h r t d)
        else true)
+  | CR pos w pv acc =>
+      (* the routing layer accepts a string in a position exactly when the position's validity
+         predicate (as observed on the exported functions) holds; a manifest reference is taken
+         as a digest first, else as a tag *)
+      no_panic_preds pv && no_panic_ob acc &&
+      Bool.eqb (is_t acc)
+        (match pos with
+         | PRepo | PFrom => is_t (p_repo pv)
+         | PDigest | PDigestRef => is_t (p_digest pv)
+         | PTagRef => is_t (p_tag pv) && negb (is_t (p_digest pv))
+         end)
   end.
 
 (* a case that exercises an accepting path: something parsed or some predicate said yes *)
@@ -206,6 +262,7 @@ Definition d_nontrivial (c : dcase) : bool :=
   | CP h r t d pv _ rel _ =>
       nonempty h && is_t (p_host pv) && is_t (p_repo pv) &&
       (negb (nonempty t) || is_t (p_tag pv)) && (negb (nonempty d) || is_t (p_digest pv))
+  | CR _ _ pv acc => is_t acc || is_t (p_repo pv) || is_t (p_tag pv) || is_t (p_digest pv)
   end.
 
 (* ---------- soundness of the correspondence ---------- *)
@@ -230,9 +287,24 @@ Proof. destruct p; cbn; auto. now rewrite !beqb_refl. Qed.
 Lemma ob_eqb_refl o : ob_eqb o o = true.
 Proof. now destruct o. Qed.
 
+Lemma spec_alnum_us_word c : spec_alnum_us c = is_word c.
+Proof.
+  unfold spec_alnum_us, is_word, b_us.
+  destruct (c =? 95)%N, ((48 <=? c) && (c <=? 57))%N, ((65 <=? c) && (c <=? 90))%N, ((97 <=? c) && (c <=? 122))%N; reflexivity.
+Qed.
+
+Lemma spec_tag_tag_spec w : spec_tag w = tag_spec w.
+Proof.
+  destruct w as [|c rest]; [reflexivity|]. unfold spec_tag, tag_spec.
+  rewrite spec_alnum_us_word. f_equal; [f_equal|].
+  - induction rest as [|x rest IH]; cbn [forallb]; [reflexivity|]. rewrite IH.
+    unfold tag_char, b_dot, b_dash. now rewrite spec_alnum_us_word.
+  - unfold blen. destruct (Nat.leb_spec (length (c :: rest)) 128); symmetry; [apply Z.leb_le | apply Z.leb_gt]; lia.
+Qed.
+
 Lemma predict_ok c : d_obs_ok (predict c) = true.
 Proof.
-  destruct c as [w rel abs str pv sv wv dg | h r t d pv str rel abs]; cbn [predict d_obs_ok].
+  destruct c as [w rel abs str pv sv wv dg | h r t d pv str rel abs | pos w pv acc]; cbn [predict d_obs_ok].
   - (* string case *)
     destruct (parsing_never_panics L w) as [N1 [N2 [N3 N4]]].
     assert (Hsv : no_panic_preds (preds_of w w w w) = true) by apply preds_of_no_panic.
@@ -251,6 +323,9 @@ Proof.
       - auto.
       - destruct e; auto. }
     destruct Hdg as [-> ->].
+    assert (Htg : Bool.eqb (is_t (ob_of (is_valid_tag w))) (spec_tag w) = true).
+    { rewrite spec_tag_tag_spec, is_valid_tag_spec. now destruct (tag_spec w). }
+    rewrite Htg, !andb_true_r.
     unfold parse. destruct (parse_relative L w) as [ref| e | |] eqn:E; try congruence.
     + pose proof (parse_print L _ _ E) as Hp. pose proof (parts_valid L _ _ E) as [Vh [Vr [Lr [Vt Vd]]]].
       destruct ref as [h r t d]. cbn [r_host r_repo r_tag r_digest rbind pres_of] in *.
@@ -286,6 +361,12 @@ Proof.
     { apply orb_true_iff in H as [H|H]; [left; now apply nonempty_false, negb_true_iff | right; now apply is_t_ob_of]. }
     destruct (print_parse L h r t d H3 H2 H1 Ht Hd) as [P1 P2]. fold str' in P1, P2.
     rewrite P1, P2. cbn [pres_of r_host r_repo r_tag r_digest]. now rewrite pres_eqb_refl.
+  - (* routing case *)
+    unfold router_valid_repo, router_valid_digest, router_manifest_ref, no_panic_preds.
+    cbn [p_host p_repo p_tag p_digest].
+    destruct (predicates_total L w) as [_ [[br Hr] [[bt Ht] [bd Hd]]]].
+    rewrite Hr, Ht, Hd. cbn [rbind].
+    destruct pos, br, bt, bd; reflexivity.
 Qed.
 
 Lemma d_corr_sound c : d_model_agrees c = true -> d_obs_ok c = true.
@@ -304,7 +385,8 @@ Inductive epres := EPanic | EErr | EOk (h r t d : enc).
 
 Inductive case :=
   | ES (w : bytes) (rel abs : epres) (str : option enc) (pv : option preds) (sv wv : preds) (dg : option N)
-  | EP (base : bytes) (h r t d : enc) (pv : preds) (str : option enc) (rel abs : epres).
+  | EP (base : bytes) (h r t d : enc) (pv : preds) (str : option enc) (rel abs : epres)
+  | ER (pos : rpos) (w : bytes) (pv : preds) (acc : ob).
 
 Definition dec (base : bytes) (e : enc) : bytes :=
   match e with
@@ -327,6 +409,7 @@ Definition decode (c : case) : dcase :=
   | EP base h r t d pv str rel abs =>
       CP (dec base h) (dec base r) (dec base t) (dec base d) pv (option_map (dec base) str)
          (dec_pres base rel) (dec_pres base abs)
+  | ER pos w pv acc => CR pos w pv acc
   end.
 
 Definition model_agrees (c : case) : bool := d_model_agrees (decode c).
